@@ -478,3 +478,81 @@ Proof.
   - rewrite (impl_peek_brk cx ps oc cc SD D s pos w _ SK W HS). { exact PA. }
     right. cbn [hd_not]. rewrite A1, C. reflexivity.
 Qed.
+
+(** * A comment that ends with the input *)
+Lemma find_sub_no_nl text : mem_c 10 text = false -> find_sub text [10%N] = None.
+Proof.
+  induction text as [|c text IH]; intros H; [reflexivity|].
+  cbn [mem_c existsb] in H. apply orb_false_iff in H. destruct H as [H1 H2].
+  cbn [find_sub startswith]. rewrite H1. cbn [andb].
+  change (existsb (N.eqb 10) text) with (mem_c 10 text) in H2. rewrite (IH H2). reflexivity.
+Qed.
+
+Section CommentsEof.
+  Variables (cx : context) (ps : pstate).
+  Hypothesis V : std_view cx ps.
+
+  Lemma dispatch_comment_eof s p pre text :
+    skipn p s = 37%N :: text -> mem_c 10 text = false ->
+    dispatch ps s (37%N :: text) p pre 37%N = TokOk (mk TkComment text p (p + 1 + length text) pre []).
+  Proof.
+    intros SK NT.
+    unfold dispatch. rewrite (stage_math_none cx ps V), (stage_escape_none cx ps V) by reflexivity.
+    cbn [orelse]. unfold stage_comment. rewrite (sv_comment _ _ V), (sv_comments _ _ V).
+    assert (S1 : startswith (37%N :: text) [37%N] = true).
+    { cbn [startswith]. rewrite N.eqb_refl. destruct text; reflexivity. }
+    rewrite S1. cbn [N.eqb Pos.eqb andb orelse]. f_equal.
+    unfold read_comment. rewrite (sv_comment _ _ V). cbn [length].
+    pose proof (skipn_cons_lt _ _ _ _ SK) as [PL SK1].
+    replace (p + 1) with (S p) by lia.
+    assert (LS : length s = S p + length text).
+    { pose proof (f_equal (@length N) SK1) as E. rewrite skipn_length in E. lia. }
+    assert (F : find_from s [10%N] (S p) = None).
+    { unfold find_from. assert (L : Nat.ltb (length s) (S p) = false) by (apply Nat.ltb_ge; lia).
+      rewrite L, SK1, (find_sub_no_nl text NT). reflexivity. }
+    rewrite F. unfold slice. rewrite SK1, LS.
+    replace (S p + length text - S p) with (length text) by lia.
+    rewrite firstn_all. unfold mk. f_equal; lia.
+  Qed.
+End CommentsEof.
+
+(** * A paragraph break followed by indentation *)
+Lemma rfind_nl_ind x ind : mem_c 10 ind = false -> rfind_nl (x ++ 10%N :: ind) = length x.
+Proof.
+  intros H. unfold rfind_nl. rewrite rev_app_distr. cbn [rev]. rewrite <- app_assoc. cbn [app].
+  assert (R : mem_c 10 (rev ind) = false).
+  { unfold mem_c in *. destruct (existsb (N.eqb 10) (rev ind)) eqn:E; [|reflexivity].
+    apply existsb_exists in E. destruct E as (c & I & C). apply in_rev in I.
+    assert (X : existsb (N.eqb 10) ind = true) by (apply existsb_exists; exists c; tauto). congruence. }
+  rewrite (find_nl_app (rev ind) (rev x) R). rewrite app_length, rev_length. cbn [length]. lia.
+Qed.
+
+Lemma impl_peek_par_ind cx ps s pos ws mid ind rest sp : std_view cx ps ->
+  skipn pos s = ws ++ 10%N :: mid ++ 10%N :: ind ++ rest ->
+  forallb is_space ws = true -> mem_c 10 ws = false -> forallb is_space mid = true ->
+  forallb is_space ind = true -> mem_c 10 ind = false ->
+  hd_not is_space rest -> get_specials_spec cx [10;10]%N = Some sp ->
+  impl_peek ps s pos
+  = TokOk (mk TkSpecials [10;10]%N (pos + length ws) (pos + length ws + 1 + length mid + 1) ws []).
+Proof.
+  intros V SK W NW WM WI NI HF SP.
+  set (pre0 := ws ++ 10%N :: mid ++ 10%N :: ind).
+  assert (SK' : skipn pos s = pre0 ++ rest).
+  { unfold pre0. rewrite <- app_assoc. cbn [app]. rewrite <- app_assoc. cbn [app]. exact SK. }
+  assert (W0 : forallb is_space pre0 = true).
+  { unfold pre0. rewrite forallb_app. cbn [forallb]. rewrite forallb_app. cbn [forallb].
+    rewrite W, WM, WI, space_10. reflexivity. }
+  unfold impl_peek. rewrite (peek_space_at s pos pre0 rest SK' W0 HF), (sv_dnp _ _ V).
+  assert (C : Nat.leb 2 (count_c 10 pre0) = true).
+  { apply Nat.leb_le. unfold pre0. rewrite count_c_app. cbn [count_c]. rewrite count_c_app. cbn [count_c].
+    rewrite N.eqb_refl. lia. }
+  rewrite C. cbn [andb]. unfold par_token.
+  assert (F1 : find_nl pre0 = length ws) by (apply find_nl_app; exact NW).
+  assert (F2 : rfind_nl pre0 = length (ws ++ 10%N :: mid)).
+  { unfold pre0. change (ws ++ 10%N :: mid ++ 10%N :: ind) with (ws ++ (10%N :: mid) ++ 10%N :: ind).
+    rewrite app_assoc. apply rfind_nl_ind. exact NI. }
+  rewrite F1, F2. unfold pre0 at 1. rewrite firstn_len_app, (sv_specials _ _ V).
+  unfold get_specials_spec in SP. rewrite (assoc_existsb _ _ _ SP).
+  rewrite app_length. cbn [length].
+  replace (pos + S (length ws + S (length mid))) with (pos + length ws + 1 + length mid + 1) by lia. reflexivity.
+Qed.
